@@ -170,11 +170,13 @@ pub fn rec_optval(args: &Args) {
     }
     // typed builder sequences: the typed setters/getters on a message, element by element
     let nums: [u16; 5] = [6, 12, 14, 60, 2000];
-    for _ in 0..(if thorough { 3000 } else { 250 }) {
+    for ep in 0..(if thorough { 3000 } else { 400 }) {
         out.ev(json!({"op": "reset"}));
         let mut p = Packet::new();
-        for _ in 0..r.range(1, 8) {
-            let num = *r.pick(&nums);
+        // half of the episodes concentrate on two numbers so that multi-valued options meet the setters
+        let focus: [u16; 2] = [6, *r.pick(&[12u16, 60])];
+        for _ in 0..r.range(1, 12) {
+            let num = if ep % 2 == 0 { *r.pick(&focus) } else { *r.pick(&nums) };
             let w = *r.pick(&[1u64, 2, 4, 8]);
             let (f, a): (&str, Value) = match r.below(7) {
                 0 | 1 => {
